@@ -50,3 +50,6 @@ reg("C14", "generated expression trees evaluated against numpy (reference evalua
 reg("C15", "generated-input search with byte snapshots of every input before/after each public builder/solver, bit-identity of repeated calls, aliasing probes",
     "Every public builder and solver on generated inputs: snapshots of mesh, coefficient variables, solution variable, BC arrays, cached boundary term and term objects before/after; repeated calls bit-identical; returned objects share no memory with inputs/mesh; time loop reusing terms equals loop rebuilding them.",
     TB, "DESIGN.md 3 C15")
+reg("C02", "generated manufactured solutions (sympy-derived source and boundary data) + observed order of convergence on a resolution ladder",
+    "For generated class/spacing/BC-kind/term-set/solution-parameter combinations the exact solution's source term and boundary data are derived symbolically from the continuous operators; the problem is solved on 3 (escalating to 5) doubling resolutions and the observed order of the max-norm error must reach the scheme's order. Decides consistency of every metric factor, sign and coefficient placement; not a proof of convergence.",
+    TB + "; sympy trusted; finite ladders (1-D to 1024, 2-D to 128, 3-D to 32 cells per axis)", "DESIGN.md 3 C02")
